@@ -4,6 +4,7 @@ import (
 	"encoding/binary"
 	"fmt"
 	"sort"
+	"strings"
 	"sync"
 	"sync/atomic"
 	"time"
@@ -111,6 +112,7 @@ type c11Conn struct {
 	repliesOK, repliesBad int
 }
 
+var nearKeySends atomic.Int64
 var c11ConnID atomic.Int64
 var c11Tag atomic.Uint32
 
@@ -164,6 +166,19 @@ func c11History(srv *svc.Server, c *core.Collector, seed uint64, hid int, base i
 				default:
 				}
 				key := keys[r.Intn(len(keys))]
+				if r.Chance(1, 6) {
+					// a key that is NOT in use but looks like one that is (zero-padded to the BCD field widths, one character more or
+					// less, blanks): nobody ever joins under it, so every command to it must come back "not exist"
+					k := key
+					pad := func(n int) string {
+						if len(k) >= n {
+							return "0" + k
+						}
+						return strings.Repeat("0", n-len(k)) + k
+					}
+					key = core.Pick(r, []string{pad(12), pad(20), "0" + k, k + "0", " " + k, k + " ", k + "\x00", k[:len(k)-1], k[1:]})
+					nearKeySends.Add(1)
+				}
 				tag := c11Tag.Add(1)
 				body := binary.BigEndian.AppendUint32([]byte{1, 0, 0, 0xF0, 0x03, 4}, tag)
 				sr := &c11Send{key: key, tag: tag, call: svc.Stamp()}
@@ -584,6 +599,7 @@ func c11Worker(c *core.Collector, x *Ctx) {
 			th, _ := svc.TraceHash(mark)
 			c.Evals(int64(nops))
 			c.Count("histories", 1)
+			c.Counter("sends_to_look_alike_keys_that_nobody_owns").Store(nearKeySends.Load())
 			c.NonTrivial(core.HashString(fmt.Sprintf("%d/%d/%x", x.Batch, h, th)))
 			vmu.Lock()
 			switch {
